@@ -3,7 +3,10 @@ manager connect path.  Every frame the client emits is captured at Client.send_m
 MessageManager.process_message; the acknowledgement the manager writes is what _wait_for_acknowledgement returns.
 
 shard: entry = "connect" | "context"; name index into POOL
-symbolic: module_id 0..99, logger_status, daemon_status (connect only), allow_multiple
+       reconnect = 1 (entry connect): after the first connect the connection is lost (the client notices on its read/send path:
+                   connected becomes False without disconnect() having run, the manager removes the module), and the caller
+                   connects again on the same Client object with the same options
+symbolic: module_id 0..99, logger_status, daemon_status (connect only), allow_multiple, the manager's dynamic-id cursor 0..99
 """
 from engine import mgrworld as W
 from engine import cliworld as CW
@@ -75,16 +78,38 @@ STUBS = ["Client._socket_connect -> marks the client connected (no TCP)", "Clien
          "Client.disconnect -> marks disconnected", "RTMALogger -> NullLogger"]
 
 
-def scenario(module_id, logger_status, daemon_status, allow_multiple):
+def scenario(module_id, logger_status, daemon_status, allow_multiple, off=0):
     entry = sh("entry", "connect")
     name = POOL[sh("name", 0)]
     link = Link()
     Link.cur = link
+    link.mm.next_dynamic_mod_id_offset = off     # the manager has handed out dynamic ids before (any cursor position)
     try:
         if entry == "connect":
             c = C.Client(module_id=module_id, name=name)
             c.connect("localhost:7111", logger_status=logger_status, daemon_status=daemon_status, allow_multiple=allow_multiple)
             want_daemon = daemon_status
+            if sh("reconnect", 0):
+                link.deliver()
+                first_id = link.mod.mod_id
+                # the connection is lost: what the client's own error paths do, and what the manager does on its side
+                c._connected = False
+                with disable_message_validation():
+                    link.mm.remove_module(link.mod)
+                # a new TCP connection to the same manager: a fresh accepted module
+                conn = W.FakeConn(9)
+                fresh = M.Module(uid=77, conn=conn, address=("10.0.0.9", 1), header_cls=link.mm.header_cls)
+                if W.SHADOW:
+                    fresh.subs = W.LinearSet()
+                link.mm.modules[conn] = fresh
+                link.mm.wlist = [conn]
+                link.mod = fresh
+                try:
+                    c.connect("localhost:7111", logger_status=logger_status, daemon_status=daemon_status, allow_multiple=allow_multiple)
+                except C.AcknowledgementTimeout:
+                    return False, "re-connect after a lost connection was refused (first id %s)" % ("dynamic" if module_id == 0 else "explicit")
+                except Exception as e:
+                    return False, "re-connect after a lost connection raised %s" % type(e).__name__
         else:
             cm = C.client_context(module_id=module_id, server_name="localhost:7111", logger_status=logger_status,
                                   allow_multiple=allow_multiple, name=name)
@@ -116,17 +141,17 @@ def scenario(module_id, logger_status, daemon_status, allow_multiple):
         c._connected = False
 
 
-def opts(module_id: int, logger_status: bool, daemon_status: bool, allow_multiple: bool) -> bool:
+def opts(module_id: int, logger_status: bool, daemon_status: bool, allow_multiple: bool, off: int) -> bool:
     """
-    pre: 0 <= module_id <= 99
+    pre: 0 <= module_id <= 99 and 0 <= off <= 99
     post: _
     """
-    return verdict(scenario(module_id, logger_status, daemon_status, allow_multiple))
+    return verdict(scenario(module_id, logger_status, daemon_status, allow_multiple, off))
 
 
-def opts_reach(module_id: int, logger_status: bool, daemon_status: bool, allow_multiple: bool) -> bool:
+def opts_reach(module_id: int, logger_status: bool, daemon_status: bool, allow_multiple: bool, off: int) -> bool:
     """
-    pre: 0 <= module_id <= 99
+    pre: 0 <= module_id <= 99 and 0 <= off <= 99
     post: _
     """
-    return reached(scenario(module_id, logger_status, daemon_status, allow_multiple))
+    return reached(scenario(module_id, logger_status, daemon_status, allow_multiple, off))
